@@ -30,7 +30,7 @@ static int fs_do_open(int flags) {
   if (!fs_exists) { fs_exists = 1; fs_file_len = 0; }
   if (flags & FS_O_CREAT) fs_creates++;
   if (flags & FS_O_TRUNC) {
-    for (unsigned long i = 0; i < 128; i++) fs_file[i] = 0;   /* a fresh, empty file (harness files are < 128 bytes) */
+    __builtin_memset(fs_file, 0, 128);   /* a fresh, empty file (harness files are <= 96 bytes) */
     fs_file_len = 0;
   }
   for (int fd = 3; fd < FS_NFD; fd++) {
@@ -55,7 +55,7 @@ long read(int fd, void *buf, unsigned long count) {
   unsigned long avail = off < fs_file_len ? fs_file_len - off : 0;
   unsigned long n = count < avail ? count : avail;
   unsigned char *dst = (unsigned char *)buf;
-  for (unsigned long i = 0; i < n; i++) dst[i] = fs_file[off + i];
+  if (n > 0) __builtin_memcpy(dst, fs_file + off, n);
   fs_off[fd] = off + n;
   return (long)n;
 }
@@ -63,9 +63,9 @@ long read(int fd, void *buf, unsigned long count) {
 long write(int fd, const void *buf, unsigned long count) {
   if (fd < 3 || fd >= FS_NFD || !fs_used[fd]) { fs_bad_arg = 1; return -1; }
   unsigned long off = fs_off[fd];
-  if (off + count > 128) { fs_bad_arg = 1; return -1; }
+  if (off + count > 100) { fs_bad_arg = 1; return -1; }
   const unsigned char *src = (const unsigned char *)buf;
-  for (unsigned long i = 0; i < count; i++) fs_file[off + i] = src[i];
+  if (count > 0) __builtin_memcpy(fs_file + off, src, count);
   fs_off[fd] = off + count;
   if (fs_off[fd] > fs_file_len) fs_file_len = fs_off[fd];
   return (long)count;
